@@ -266,6 +266,11 @@ fn check_many(c: &ManyCase, ctx: &Ctx) -> Outcome {
             let last = samples.len() - 1;
             samples[last].0 = samples[2].0.clone();
         }
+        // the very same entry (name and file) listed a second time, at a quarter / half / three quarters of the list
+        2 => {
+            let at = samples.len() * (1 + (c.salt / 5) as usize % 3) / 4;
+            samples[at] = samples[2].clone();
+        }
         _ => {}
     }
     let perm = perm_from_keys(&c.perm, c.n);
@@ -273,7 +278,25 @@ fn check_many(c: &ManyCase, ctx: &Ctx) -> Outcome {
     let dir = ctx.case_dir();
     let mut tabs = Vec::new();
     for (tag, set, threads) in [("a", &samples, c.threads_a), ("b", &permuted, c.threads_b)] {
-        let o = build(ctx, &dir, tag, set, c.k, c.rc, threads);
+        // identical entries point to one and the same file (the list is rewritten after the files exist)
+        let list = write_samples(&dir, tag, set, None);
+        let text = std::fs::read_to_string(&list).unwrap();
+        let mut lines: Vec<String> = text.lines().map(|l| l.to_string()).collect();
+        for i in 0..set.len() {
+            if let Some(j) = (0..i).find(|j| set[*j] == set[i]) {
+                lines[i] = lines[j].clone();
+            }
+        }
+        std::fs::write(&list, lines.join("\n") + "\n").unwrap();
+        let (ks, ts, out) = (c.k.to_string(), threads.to_string(), cli::p(&dir.join(tag)));
+        let mut args: Vec<&str> = vec!["build", "-f", &list, "-o", &out, "-k", &ks];
+        if !c.rc {
+            args.push("--single-strand");
+        }
+        if threads > 1 {
+            args.extend_from_slice(&["--threads", &ts]);
+        }
+        let o = cli::run_ska(ctx, &dir, &args);
         if let Err(e) = must_ok(&o, &format!("build of {} samples with {threads} threads", c.n)) {
             return e;
         }
@@ -296,7 +319,7 @@ fn check_many(c: &ManyCase, ctx: &Ctx) -> Outcome {
     pass(perm.iter().enumerate().any(|(a, b)| a != *b), key_of(&(c.k, c.rc, c.n, c.len, c.salt, &perm, c.threads_a, c.threads_b)), cl)
 }
 
-const MANY_RULE: &str = "generated: 11-300 one-record samples (counts on both sides of every 10-per-thread threshold and of 256) (a common sequence of k+8..k+47 bases with one sample-specific substitution each), built once in listed order and once in a generated permutation, with thread counts from {1,2,8} and {1,2,4,8,16} (both sides of the 10-samples-per-thread rule and merge depths 1-4), k in {7,9,15,21,31,33,41}, both strand modes. Oracle: each table equals the string model's table for that sample order (so the permutation only permutes the columns). Non-trivial: the permutation is not the identity.";
+const MANY_RULE: &str = "generated: 11-300 one-record samples (counts on both sides of every 10-per-thread threshold and of 256) (a common sequence of k+8..k+47 bases with one sample-specific substitution each), built once in listed order and once in a generated permutation, with thread counts from {1,2,8} and {1,2,4,8,16} (both sides of the 10-samples-per-thread rule and merge depths 1-4), k in {7,9,15,21,31,33,41}, both strand modes. some lists name two different samples alike or list the very same entry twice (at a quarter, half or three quarters of the list). Oracle: each table equals the string model's table for that sample order (so the permutation only permutes the columns). Non-trivial: the permutation is not the identity.";
 
 fn stages(tier: Tier) -> Vec<Box<dyn Stage>> {
     vec![
